@@ -141,7 +141,26 @@ def _dump_cov(modname):
         json.dump(out, f)
 
 
+_INIT_ERROR = []
+
+
+def safe_init(repo, so_path, config):
+    """Pool initializer: a failing initializer makes multiprocessing respawn workers for ever, so the failure is
+    kept and reported by the first task instead (the check then exits 2: the tree cannot be set up)."""
+    try:
+        init(repo, so_path, config)
+    except BaseException as e:  # noqa: BLE001
+        import traceback
+        _INIT_ERROR.append(f"{type(e).__name__}: {e}\n" + traceback.format_exc()[-1500:])
+
+
 def run(task):
+    if _INIT_ERROR:
+        raise RuntimeError("worker initialisation failed (pendulum from this tree cannot be imported / set up): " + _INIT_ERROR[0])
+    return _run(task)
+
+
+def _run(task):
     """task = (property module name, function name, argument)"""
     modname, fn, arg = task
     mod = importlib.import_module(f"pendmc.props.{modname}")
